@@ -429,13 +429,121 @@ def run_c16(ctx):
                                "line": line[:300]})
             ctx.count("reinforce.judged")
     ctx.sample({"last-line": line[:200], "reply": grep[:200]})
+    run_c16_ppo(ctx)
+
+
+def _tenk_line(shape, vs):
+    body = " ".join(fs(v) for v in vs)
+    if len(shape) == 0:
+        return f"s {body}"
+    if len(shape) == 1:
+        return f"v {shape[0]} {body}"
+    return f"m {shape[0]} {shape[1]} {body}"
+
+
+def run_c16_ppo(ctx):
+    """The six statements of the PPO loss block, as they stand in ppo.py, executed in Python next to their
+    regenerated Lean translation; value and directional derivative; reference surrogate on the real outcome."""
+    import types
+
+    import torch.nn.functional as F
+
+    try:
+        block = pytrans.ppo_block_callable()
+    except pytrans.Untranslatable as e:
+        ctx.note(f"PPO loss block not found in its translated shape ({e}); committed definition kept, nothing compared")
+        ctx.count("ppo.block-pattern-miss")
+        return
+    rng = ctx.rng
+    for h in range(ctx.budget(150, 2000)):
+        theta = torch.zeros((), dtype=torch.float64, requires_grad=True)
+        B, T = rng.choice([1, 2, 3, 5]), rng.choice([1, 2, 3])
+        c = rng.choice([Fraction(1, 5), Fraction(1, 10), Fraction(1, 2)])
+        vf, el = rng.choice([Fraction(1, 2), Fraction(1), Fraction(0)]), rng.choice([Fraction(1, 100), Fraction(0), Fraction(1, 4)])
+        LL = _rand_ten(rng, (B, T))
+        args = [rng.choice([Fraction(-1), Fraction(-1, 2), Fraction(-1, 8), Fraction(0), Fraction(1, 16), Fraction(1, 8), Fraction(1, 2), Fraction(1)])
+                for _ in range(B)]
+        rows = [sum(LL[1][i * T:(i + 1) * T], Fraction(0)) for i in range(B)]
+        old = [rows[i] - args[i] for i in range(B)]
+        R = [dy(rng, 2, -3, 3) for _ in range(B)]
+        vkind = rng.choice(["col", "col", "col", "flat", "bad"])
+        vshape = {"col": (B, 1), "flat": (B,), "bad": (B + 1, 1)}[vkind]
+        VP = _rand_ten(rng, vshape)
+        ENT = _rand_ten(rng, (B,))
+        ctx.count(f"ppo.value-shape.{vkind}")
+        table = sorted(set(args))
+        wtab = {a: Fraction(math.exp(float(a))) for a in table}
+        line = (f"numeric.ppo {fs(c)} {fs(vf)} {fs(el)} {_ten_line(LL)} {_tenk_line((B,), old)} {_tenk_line((B,), R)} "
+                f"{_ten_line(VP)} {_ten_line(ENT)} {len(table)} " + " ".join(f"{fs(a)} {fs(wtab[a])}" for a in table))
+        g = ctx.driver.ask(line)
+        ctx.case(("ppo", h))
+        fake = types.SimpleNamespace(ppo_cfg={"clip_range": float(c), "vf_lambda": float(vf), "entropy_lambda": float(el)})
+        sub_td = {"reward": torch.tensor([float(x) for x in R], dtype=torch.float64),
+                  "logprobs": torch.tensor([float(x) for x in old], dtype=torch.float64)}
+        try:
+            out = block(torch, F, fake, sub_td, _ten_torch(LL, theta), _ten_torch(ENT, theta), _ten_torch(VP, theta))
+        except Exception as e:
+            ctx.count("ppo.real-raises")
+            if "error=shape" not in g:
+                ctx.disagreement("the PPO loss statements raise, their translation does not", {"line": line[:300], "error": str(e)[:120]})
+            continue
+        if "error=shape" in g:
+            ctx.disagreement("the translated PPO loss block fails where the statements succeed", {"line": line[:300]})
+            continue
+        fields = dict(x.split("=", 1) for x in g.split())
+        ok = True
+        for key, name in (("loss", "loss"), ("surrogate", "surrogate_loss"), ("value", "value_loss")):
+            gv, gd = _parse_dual(fields[key])
+            if not close(float(out[name]), gv, rel=1e-8) or not close(_grad(out[name], theta), gd, rel=1e-8):
+                ok = False
+                ctx.disagreement(f"translated PPO loss block differs from the statements ({name}: value; derivative)",
+                                 {"real": [float(out[name]), _grad(out[name], theta)], "generated": [fs(gv), fs(gd)], "line": line[:400]})
+                break
+        if not ok:
+            continue
+        if str(list(out["ratio"].shape)).replace(" ", "") != fields["ratio"].split(":")[0] or \
+                str(list(out["adv"].shape)).replace(" ", "") != fields["adv"].split(":")[0]:
+            ctx.disagreement("translated PPO loss block: ratio / advantage shapes differ from the statements",
+                             {"real": [list(out["ratio"].shape), list(out["adv"].shape)], "generated": [fields["ratio"][:20], fields["adv"][:20]]})
+            continue
+        # --- the property on the real outcome (proper shapes only: critic output [B,1]) -------------------------
+        if vkind == "col":
+            r = [math.exp(float(a)) for a in args]
+            dS = [float(sum(LL[2][i * T:(i + 1) * T], Fraction(0))) for i in range(B)]
+            v, dv = [float(x) for x in VP[1]], [float(x) for x in VP[2]]
+            A = [float(R[i]) - v[i] for i in range(B)]
+            lo, hi = 1 - float(c), 1 + float(c)
+            sv = sd = hv = hd = 0.0
+            for i in range(B):
+                cl = min(max(r[i], lo), hi)
+                a, b = r[i] * A[i], cl * A[i]
+                sv += min(a, b)
+                inside = lo < r[i] < hi
+                da, db = A[i] * r[i] * dS[i], (A[i] * r[i] * dS[i] if inside else 0.0)
+                sd += da if a < b else db if b < a else 0.5 * (da + db)
+                z = v[i] - float(R[i])
+                hv += 0.5 * z * z if abs(z) < 1 else abs(z) - 0.5
+                hd += (z if abs(z) < 1 else math.copysign(1.0, z)) * dv[i]
+            ent_v = sum(float(x) for x in ENT[1]) / B
+            ent_d = sum(float(x) for x in ENT[2]) / B
+            ref_v = -sv / B + float(vf) * hv / B - float(el) * ent_v
+            ref_d = -sd / B + float(vf) * hd / B - float(el) * ent_d
+            lv, ld = float(out["loss"]), _grad(out["loss"], theta)
+            if abs(lv - ref_v) > 1e-8 * (1 + abs(ref_v)) or abs(ld - ref_d) > 1e-8 * (1 + abs(ref_d)):
+                ctx.violation("ppo-loss", "PPO loss / gradient differs from the clipped-ratio surrogate with value and entropy terms",
+                              {"real": [lv, ld], "reference": [ref_v, ref_d], "line": line[:400]})
+            ctx.count("ppo.judged")
+    ctx.sample({"ppo-last-line": line[:200], "reply": g[:200]})
 
 
 NOTE16 = ("Rl4co/Generated/Losses.lean is produced by harness/pytrans.py from the Python AST on every run (tensor expressions over "
           "rank ≤ 2 tensors of dual numbers: broadcasting + − ×, unary minus, .mean(), .mean(dim, keepdims), .squeeze(-1), .detach(), "
           "F.mse_loss, the advantage scaler as an entrywise map); the real `calculate_loss` is called unbound on a stand-in for `self`; "
           "gradients are compared along one random direction θ (autograd assumed to implement dual-number semantics); "
-          "PPO / SymNCO losses are not regenerated (token probes + hand-written model, unit `train`).")
+          "Rl4co/Generated/Ppo.lean: the six assignments of the PPO loss block (normalize_adv = False) regenerated the same way; on the Python "
+          "side those six source statements are compiled as they stand into a function and executed (the surrounding training loop, "
+          "optimizer and data loader are not run here — unit `train` runs `PPO.shared_step` itself); `exp` is an oracle table; "
+          "SymNCO losses are not regenerated (token probes + hand-written model, unit `train`).")
 
 THEOREMS16 = [
     Theorem("Rl4co.Train.GenBridge.gen_reinforce_eq", "proved", "obligation: the regenerated calculate_loss IS the model's calcLoss (same failures, loss, reinforce_loss, advantage)"),
@@ -446,9 +554,14 @@ THEOREMS16 = [
     Theorem("Rl4co.Train.GenBridge.gen_reinforce_scalar", "proved", "C16 on the regenerated code: scalar baseline (exponential / mean / none)"),
     Theorem("Rl4co.Train.GenBridge.gen_reinforce_shared", "proved",
             "C16 on the regenerated code: regenerated SharedBaseline.eval fed to regenerated calculate_loss: advantage [B,S], shared surrogate, value and derivative"),
+    Theorem("Rl4co.Train.GenBridge.gen_ppo_eq", "proved", "obligation: the regenerated PPO loss block IS the model's ppoLoss with clipLo = 1−clip_range, clipHi = 1+clip_range, no normalisation"),
+    Theorem("Rl4co.Train.GenBridge.gen_ppo_loss", "proved",
+            "C16 on the regenerated PPO code: shapes [B,1], loss = clipped-ratio surrogate + vf·Huber − ent·entropy; derivative of the reference surrogate off the clip bounds"),
+    Theorem("Rl4co.Train.GenBridge.gen_ppo_loss_all", "proved", "C16 on the regenerated PPO code: derivative at ALL points (weights 0, 1/2, 1 at the kinks, PyTorch's conventions)"),
     Theorem("Rl4co.Train.GenBridge.gen_a2c_loss", "proved",
             "C16 on the regenerated code: A2C = regenerated critic eval + regenerated calculate_loss: −mean((R−o)·ll)+mse(o,R) and its derivative"),
 ]
 
 register(Unit("C16", "numeric_generated", run_c16, drivers=["drv_numeric"],
-              lean_modules=["Rl4co.Generated.Losses", "Rl4co.Props.C16.TrainGenerated"], theorems=THEOREMS16, assumptions=[NOTE16]))
+              lean_modules=["Rl4co.Generated.Losses", "Rl4co.Generated.Ppo", "Rl4co.Props.C16.TrainGenerated",
+                            "Rl4co.Props.C16.TrainGeneratedPpo"], theorems=THEOREMS16, assumptions=[NOTE16]))
